@@ -68,7 +68,8 @@ func Base(d *Dialect) *schema.Schema {
 	pid, pk, puid := col("id", d.Int(), false), col("k", d.Int(), false), col("uid", d.Int(), false)
 	p.AddColumns(pid, pk, puid)
 	p.SetPrimaryKey(schema.NewPrimaryKey(pid))
-	p.AddIndexes(schema.NewUniqueIndex("p_k").AddParts(part(1, pk)), schema.NewUniqueIndex("p_uid").AddParts(part(1, puid)))
+	p.AddIndexes(schema.NewUniqueIndex("p_k").AddParts(part(1, pk)), schema.NewUniqueIndex("p_uid").AddParts(part(1, puid)),
+		schema.NewUniqueIndex("p_k_uid").AddParts(part(1, pk), part(2, puid)))
 	// bystander
 	u := schema.NewTable("u")
 	uuid, uv := col("uid", d.Int(), false), col("v", d.Text(), true)
@@ -78,7 +79,8 @@ func Base(d *Dialect) *schema.Schema {
 	t := schema.NewTable("t")
 	id, a, b, c, dd := col("id", d.Int(), false), col("a", d.Int(), true), col("b", d.Str(), true), col("c", d.Dec(), true), col("d", d.Int(), true)
 	b.SetDefault(&schema.Literal{V: "'a'"})
-	t.AddColumns(id, a, b, c, dd, col("z0", d.Int(), true))
+	z1 := col("z1", d.Int(), true)
+	t.AddColumns(id, a, b, c, dd, col("z0", d.Int(), true), z1)
 	t.SetPrimaryKey(schema.NewPrimaryKey(id))
 	t.AddIndexes(
 		schema.NewIndex("idx_a").AddParts(part(1, a)),
@@ -88,7 +90,9 @@ func Base(d *Dialect) *schema.Schema {
 	fk := &schema.ForeignKey{Symbol: "fk_a", Table: t, Columns: []*schema.Column{a}, RefTable: p, RefColumns: []*schema.Column{pid},
 		OnUpdate: schema.SetNull, OnDelete: schema.Cascade}
 	fk2 := &schema.ForeignKey{Symbol: "fk_d2", Table: t, Columns: []*schema.Column{dd}, RefTable: p, RefColumns: []*schema.Column{puid}, OnDelete: schema.NoAction}
-	t.AddForeignKeys(fk, fk2)
+	// composite key: the pairing of columns is positional, so a permutation on one side only is a change.
+	fk3 := &schema.ForeignKey{Symbol: "fk_comp", Table: t, Columns: []*schema.Column{dd, z1}, RefTable: p, RefColumns: []*schema.Column{pk, puid}, OnDelete: schema.NoAction}
+	t.AddForeignKeys(fk, fk2, fk3)
 	t.AddChecks(schema.NewCheck().SetName("ck_a").SetExpr("a > 0"))
 	if d.Comment {
 		t.SetComment("t table")
@@ -280,6 +284,22 @@ func Edits(d *Dialect) []Edit {
 			t := T(s, "t")
 			F(t, "fk_a").Columns = []*schema.Column{C(t, "d")}
 		}, []string{mt("ModifyForeignKey(fk_a)[column]")}},
+		{"fk_comp_columns_permuted", []string{"fk:fk_comp"}, func(s *schema.Schema) {
+			f := F(T(s, "t"), "fk_comp")
+			f.Columns = []*schema.Column{f.Columns[1], f.Columns[0]}
+		}, []string{mt("ModifyForeignKey(fk_comp)[column]")}},
+		{"fk_comp_ref_columns_permuted", []string{"fk:fk_comp"}, func(s *schema.Schema) {
+			f := F(T(s, "t"), "fk_comp")
+			f.RefColumns = []*schema.Column{f.RefColumns[1], f.RefColumns[0]}
+		}, []string{mt("ModifyForeignKey(fk_comp)[ref_column]")}},
+		{"fk_comp_column_replaced", []string{"fk:fk_comp"}, func(s *schema.Schema) {
+			t := T(s, "t")
+			F(t, "fk_comp").Columns[1] = C(t, "a")
+		}, []string{mt("ModifyForeignKey(fk_comp)[column]")}},
+		{"fk_comp_column_removed", []string{"fk:fk_comp"}, func(s *schema.Schema) {
+			f := F(T(s, "t"), "fk_comp")
+			f.Columns, f.RefColumns = f.Columns[:1], f.RefColumns[:1]
+		}, []string{mt("ModifyForeignKey(fk_comp)[column,ref_column]")}},
 		{"fk_ref_table", []string{"fk:fk_a", "table:u"}, func(s *schema.Schema) {
 			f, u := F(T(s, "t"), "fk_a"), T(s, "u")
 			f.RefTable, f.RefColumns = u, []*schema.Column{C(u, "uid")}
